@@ -4,9 +4,13 @@
 //! target_enabled}`, `StaticDirective::{cmp, cares_about, cares_about_target, from_str, fmt}`).
 //! Oracle: longest matching prefix (table computed by the generator), default = the target-less directive,
 //! duplicate key => last wins.
+//!
+//! Skeleton split: WHICH targets are added in WHICH order decides where `DirectiveSet::add` inserts (a path choice:
+//! with solver-chosen targets one k=2 query needs > 10 GB / 550 s), so the generator emits one harness per ordered
+//! tuple of directive keys (`gen_c11`); the levels of all directives, the query target, its level and its kind stay
+//! symbolic inside each harness.
 use crate::c13::NoSpans;
 use crate::common::*;
-use crate::gen_c11::*;
 use core::sync::atomic::{AtomicU8, Ordering};
 use tracing_core::{Collect, Interest, Level, LevelFilter, Metadata};
 use tracing_subscriber::{
@@ -29,6 +33,16 @@ impl<C: Collect> Subscribe<C> for Probe {
     }
 }
 
+/// One metadata object built at run time (a single concrete object whose target / level / kind are symbolic values).
+pub fn query_meta(target: &'static str, lr: u8, span: bool) -> &'static Metadata<'static> {
+    use tracing_core::{field::FieldSet, metadata::Kind};
+    Box::leak(Box::new(Metadata::new(
+        "m", target, level(lr), None, None, None,
+        FieldSet::new(&[], tracing_core::identify_callsite!(&CS)),
+        if span { Kind::SPAN } else { Kind::EVENT },
+    )))
+}
+
 /// the mirror of what was added: (index into T, or NT for `with_default`; filter rank)
 #[derive(Clone, Copy)]
 pub struct Dir { pub ts: usize, pub l: u8 }
@@ -49,82 +63,66 @@ pub fn decide<F: Fn(usize) -> bool>(d: &[Dir], nt: usize, tlen: &[i32], pfx: F) 
     (best > -2, best_l, best)
 }
 
-macro_rules! c11_prefix {
-    ($name:ident, $cfg:ident, $k:expr, $unwind:expr) => {
-        #[kani::proof]
-        #[kani::unwind($unwind)]
-        #[kani::stub(std::rt::thread_cleanup, noop)]
-        #[kani::stub(core::fmt::write, fmt_write_stub)]
-        fn $name() {
-            use $cfg::*;
-            vtable_hint();
-            let mut t = Targets::new();
-            let mut d = [Dir { ts: 0, l: 0 }; $k];
-            let mut max_added: u8 = 0;
-            let mut i = 0;
-            while i < $k {
-                let ts: usize = kani::any();
-                kani::assume(ts <= NT);
-                let l = any_filter_rank();
-                t = if ts == NT { t.with_default(filter(l)) } else { t.with_target(T[ts], filter(l)) };
-                d[i] = Dir { ts, l };
-                if l > max_added { max_added = l; }
-                i += 1;
-            }
-            let q: usize = kani::any();
-            kani::assume(q < NQ);
-            let lr = any_level_rank();
-            let span: bool = kani::any();
-            let (some, by, spec) = decide(&d, NT, &TLEN, |ts| PFX[ts][q]);
-            let want = some && lr <= by;
-
-            // 1. the stand-alone query
-            assert!(t.would_enable(Q[q], &level(lr)) == want);
-            // 2. the default level is the last `with_default`
-            let (has_default, dl, _) = decide(&d, NT, &TLEN, |_| false);
-            match t.default_level() {
-                Some(f) => assert!(has_default && f == filter(dl)),
-                None => assert!(!has_default),
-            }
-            // 3. the same verdict as a layer and as a per-layer filter, on constructed metadata
-            let meta: &'static Metadata<'static> = if span { &QS[q][(lr - 1) as usize] } else { &QE[q][(lr - 1) as usize] };
-            let si = <Targets as Subscribe<NoSpans>>::register_callsite(&t, meta);
-            let fi = <Targets as Filter<NoSpans>>::callsite_enabled(&t, meta);
-            assert!(si.is_always() == want && si.is_never() == !want);
-            assert!(fi.is_always() == want && fi.is_never() == !want);
-            // the hint is a sound upper bound and not wider than anything that was ever added
-            let hs = <Targets as Subscribe<NoSpans>>::max_level_hint(&t);
-            let hf = <Targets as Filter<NoSpans>>::max_level_hint(&t);
-            assert!(hs == hf);
-            match hs {
-                Some(h) => assert!((!want || level(lr) <= h) && h <= filter(max_added)),
-                None => assert!(false),
-            }
-            let stack = Probe(t).with_collector(NoSpans);
-            let en = Collect::enabled(&stack, meta);
-            assert!(en == want);
-            assert!(PR_SUB.load(Ordering::Relaxed) == 1 + want as u8);
-            assert!(PR_FIL.load(Ordering::Relaxed) == 1 + want as u8);
-
-            // witnesses
-            kani::cover!(want && spec >= 1);
-            kani::cover!(!want && some && spec >= 1);
-            kani::cover!(!some);
-            kani::cover!(some && spec == -1 && want);
-            // two matching directives of different specificity, the more specific one forbids what the other allows
-            kani::cover!($k >= 2 && d[0].ts < NT && d[$k - 1].ts < NT && TLEN[d[0].ts] != TLEN[d[$k - 1].ts]
-                && PFX[d[0].ts][q] && PFX[d[$k - 1].ts][q] && (lr <= d[0].l) != (lr <= d[$k - 1].l));
-            // duplicate key: the later one decides against the earlier one
-            kani::cover!($k >= 2 && d[0].ts == d[$k - 1].ts && some && !want && lr <= d[0].l);
-        }
-    };
+/// `would_enable` and `default_level` against the oracle.
+/// -> (some directive applies, enabled, specificity of the deciding directive, level rank of the query)
+pub fn check_we(t: Targets, d: &[Dir], nt: usize, tlen: &[i32], pfx_col: &[bool], qstr: &'static str) -> (bool, bool, i32, u8) {
+    let lr = any_level_rank();
+    let (some, by, spec) = decide(d, nt, tlen, |ts| pfx_col[ts]);
+    let want = some && lr <= by;
+    // the stand-alone query
+    assert!(t.would_enable(qstr, &level(lr)) == want);
+    // the default level is the last `with_default`
+    let (has_default, dl, _) = decide(d, nt, tlen, |_| false);
+    match t.default_level() {
+        Some(f) => assert!(has_default && f == filter(dl)),
+        None => assert!(!has_default),
+    }
+    (some, want, spec, lr)
 }
 
-c11_prefix!(c11_prefix_k2_len1, t1, 2, 5);
-c11_prefix!(c11_prefix_k1_len1, t1, 1, 4);
-c11_prefix!(c11_prefix_k3_len1, t1, 3, 6);
-c11_prefix!(c11_prefix_k2_len2, t2, 2, 6);
-c11_prefix!(c11_prefix_k2_paths, tp, 2, 9);
+/// The same verdict from actual filtering on constructed metadata (so `would_enable` == filtering), part 1:
+/// the registration interest (`always` iff enabled, else `never`) and the level hint (sound upper bound, not wider
+/// than anything ever added), as a layer and as a per-layer filter.
+pub fn check_mi(t: Targets, d: &[Dir], nt: usize, tlen: &[i32], pfx_col: &[bool], qstr: &'static str) -> (bool, bool, i32, u8) {
+    let lr = any_level_rank();
+    let span: bool = kani::any();
+    let (some, by, spec) = decide(d, nt, tlen, |ts| pfx_col[ts]);
+    let want = some && lr <= by;
+    let mut max_added = 0u8;
+    let mut i = 0;
+    while i < d.len() { if d[i].l > max_added { max_added = d[i].l; } i += 1; }
+    let meta = query_meta(qstr, lr, span);
+    let t = core::mem::ManuallyDrop::new(t);
+    let si = <Targets as Subscribe<NoSpans>>::register_callsite(&*t, meta);
+    let fi = <Targets as Filter<NoSpans>>::callsite_enabled(&*t, meta);
+    assert!(si.is_always() == want && si.is_never() == !want);
+    assert!(fi.is_always() == want && fi.is_never() == !want);
+    let hs = <Targets as Subscribe<NoSpans>>::max_level_hint(&*t);
+    let hf = <Targets as Filter<NoSpans>>::max_level_hint(&*t);
+    assert!(hs == hf);
+    match hs {
+        Some(h) => assert!((!want || level(lr) <= h) && h <= filter(max_added)),
+        None => assert!(false),
+    }
+    kani::cover!(span && want);
+    (some, want, spec, lr)
+}
+
+/// part 2: `enabled` as a layer and as a per-layer filter, with a real `Context` from the real `Layered` stack.
+pub fn check_me(t: Targets, d: &[Dir], nt: usize, tlen: &[i32], pfx_col: &[bool], qstr: &'static str) -> (bool, bool, i32, u8) {
+    let lr = any_level_rank();
+    let span: bool = kani::any();
+    let (some, by, spec) = decide(d, nt, tlen, |ts| pfx_col[ts]);
+    let want = some && lr <= by;
+    let meta = query_meta(qstr, lr, span);
+    let stack = core::mem::ManuallyDrop::new(Probe(t).with_collector(NoSpans));
+    let en = Collect::enabled(&*stack, meta);
+    assert!(en == want);
+    assert!(PR_SUB.load(Ordering::Relaxed) == 1 + want as u8);
+    assert!(PR_FIL.load(Ordering::Relaxed) == 1 + want as u8);
+    kani::cover!(span && want);
+    (some, want, spec, lr)
+}
 
 /// vacuity twin
 #[kani::proof]
@@ -132,16 +130,65 @@ c11_prefix!(c11_prefix_k2_paths, tp, 2, 9);
 #[kani::stub(std::rt::thread_cleanup, noop)]
 #[kani::stub(core::fmt::write, fmt_write_stub)]
 fn c11_reach() {
-    use t1::*;
-    let ts: usize = kani::any();
-    kani::assume(ts < NT);
+    use crate::gen_c11::t1::*;
     let l = any_filter_rank();
-    let t = Targets::new().with_target(T[ts], filter(l));
+    let t = Targets::new().with_target("a", filter(l));
     let q: usize = kani::any();
     kani::assume(q < NQ);
     let lr = any_level_rank();
-    let want = PFX[ts][q] && lr <= l;
+    let want = PFX[1][q] && lr <= l;
     assert!(t.would_enable(Q[q], &level(lr)) == want);
     kani::cover!(want);
     assert!(false);
+}
+
+
+// ---------------------------------------------------------------- round trip parse(display(T)) == T
+// Real `Display for Targets` / `StaticDirective` / `LevelFilter` through the real `core::fmt` (no fmt stub) into a
+// `String`, then the real `FromStr` (`split(',')`, `split('=')`, `split("[{")`, `LevelFilter::from_str`).
+// NOT part of the claim and not listed in props/C11.py: measured on this box, neither c11_roundtrip_default nor
+// c11_roundtrip_k1 produced a verdict in 1200 s, and not even the fully concrete `with_default(INFO)` round trip
+// did in 700 s (symbolic execution of core::fmt's argument interpreter + str::split does not finish). The harnesses
+// are kept so that the attempt can be repeated (`cargo kani --harness c11::c11_roundtrip_k1`).
+
+macro_rules! c11_roundtrip {
+    ($name:ident, $unwind:expr, $build:expr, [$($l:ident),*]) => {
+        #[kani::proof]
+        #[kani::unwind($unwind)]
+        #[kani::stub(std::rt::thread_cleanup, noop)]
+        fn $name() {
+            $(let $l = any_filter_rank();)*
+            let t: Targets = $build;
+            let s = t.to_string();
+            let back: Result<Targets, _> = s.parse();
+            match back {
+                Ok(t2) => {
+                    assert!(t2 == t);
+                    kani::cover!(true);
+                }
+                Err(_) => assert!(false),
+            }
+            core::mem::forget(t);
+        }
+    };
+}
+c11_roundtrip!(c11_roundtrip_default, 12, Targets::new().with_default(filter(l0)), [l0]);
+c11_roundtrip!(c11_roundtrip_k1, 12, Targets::new().with_target("a", filter(l0)), [l0]);
+c11_roundtrip!(c11_roundtrip_k2, 12, Targets::new().with_target("a:", filter(l0)).with_default(filter(l1)), [l0, l1]);
+
+/// Finding candidate (NOT listed in props/C11.py; reported to the lead): the round trip `parse(display(T)) == T`
+/// needs T to equal the filter built from its *effective* directives (Display prints only those). After a duplicate
+/// key replaced a directive by a LOWER level, `DirectiveSet::max_level` keeps the old maximum, so the two filters
+/// compare unequal (`PartialEq`) and give different `max_level_hint`s although they enable exactly the same things.
+/// Native reproduction: "a=trace,a=error".parse::<Targets>() -> to_string() == "a=error" -> reparsed != original.
+#[kani::proof]
+#[kani::unwind(4)]
+#[kani::stub(std::rt::thread_cleanup, noop)]
+#[kani::stub(core::fmt::write, fmt_write_stub)]
+fn c11_dup_canonical() {
+    let (l0, l1) = (any_filter_rank(), any_filter_rank());
+    let a = core::mem::ManuallyDrop::new(Targets::new().with_target("a", filter(l0)).with_target("a", filter(l1)));
+    let b = core::mem::ManuallyDrop::new(Targets::new().with_target("a", filter(l1)));
+    kani::cover!(l0 > l1);
+    assert!(*a == *b);
 }
